@@ -3,7 +3,7 @@
 followed by all 19 quick checks on each copy.  Every check must stay silent (rc 0) on every copy: a non-zero rc is a defect
 of the checks (brittleness against the spelling of the code), never of the code.
 
-    tools/mechanical.py [kind ...]        kinds: unparse locals invert splitand methods attrs flags whiletrue guard ternary augassign format percent continue elsereturn flipcmp hoist match walrus tryelse bindmethods chained nextfind static indexloop aliasinit   (default: all)
+    tools/mechanical.py [kind ...]        kinds: unparse locals invert splitand methods attrs flags whiletrue guard ternary augassign format percent continue elsereturn flipcmp hoist match walrus tryelse bindmethods chained nextfind static indexloop aliasinit effectcomp   (default: all)
 
 Not a registered check: it exercises the checks, it decides no property."""
 import ast, os, shutil, subprocess, sys, tempfile, builtins
@@ -491,6 +491,19 @@ class AliasInitAttrs(ast.NodeTransformer):
         return f
 
 
+
+class EffectComprehension(ast.NodeTransformer):
+    """for v in IT: self.m(..v..)   (single call statement, no else)   ->   [self.m(..v..) for v in IT]"""
+
+    def visit_For(self, f):
+        self.generic_visit(f)
+        if not f.orelse and isinstance(f.target, ast.Name) and len(f.body) == 1 and isinstance(f.body[0], ast.Expr) and isinstance(f.body[0].value, ast.Call) \
+                and isinstance(f.body[0].value.func, ast.Attribute) and isinstance(f.body[0].value.func.value, ast.Name) and f.body[0].value.func.value.id == "self" \
+                and not any(isinstance(n, (ast.Await, ast.Yield, ast.YieldFrom, ast.NamedExpr)) for n in ast.walk(f)):
+            return ast.Expr(value=ast.ListComp(elt=f.body[0].value, generators=[ast.comprehension(target=f.target, iter=f.iter, ifs=[], is_async=0)]))
+        return f
+
+
 def hoist_attrs(trees):
     """in every method: `self.<attr>` that is bound only in __init__ (never rebound anywhere in the program) and read at least
     twice is read once into a local at the top of the method (an alias of the same object)"""
@@ -675,6 +688,9 @@ def make(kind, dst):
         ai.stable = {a for a, fs in stored_in.items() if fs == {"__init__"}}
         for p, t in trees.items():
             trees[p] = ai.visit(t)
+    elif kind == "effectcomp":
+        for p, t in trees.items():
+            trees[p] = EffectComprehension().visit(t)
     elif kind == "hoist":
         hoist_attrs(trees)
     elif kind == "methods":
@@ -691,7 +707,7 @@ def make(kind, dst):
 
 
 def main():
-    kinds = sys.argv[1:] or ["unparse", "locals", "invert", "splitand", "methods", "attrs", "flags", "whiletrue", "guard", "ternary", "augassign", "format", "percent", "continue", "elsereturn", "flipcmp", "hoist", "match", "walrus", "tryelse", "bindmethods", "chained", "nextfind", "static", "indexloop", "aliasinit"]
+    kinds = sys.argv[1:] or ["unparse", "locals", "invert", "splitand", "methods", "attrs", "flags", "whiletrue", "guard", "ternary", "augassign", "format", "percent", "continue", "elsereturn", "flipcmp", "hoist", "match", "walrus", "tryelse", "bindmethods", "chained", "nextfind", "static", "indexloop", "aliasinit", "effectcomp"]
     bad = 0
     for kind in kinds:
         tmp = tempfile.mkdtemp(prefix=f"pyrtma-mech-{kind}-")
